@@ -326,34 +326,69 @@ Definition not_skipped (t : test) : bool := match find_skip (t_markers t) with N
 
 (* ------------------------------------------------------------------------------------------ *)
 (* what run_single_test returns, as a function of the generated harness.
+   The generated project for the selected test t is described by [harness]: the functions of the
+   file that carry #[test] in the generated main.rs ([h_marked]) and the libtest filter the runner
+   passes on the `cargo test -- ...` command line ([h_filter]: None = no positional argument,
+   Some (pat, exact) = positional argument pat, with or without --exact).  libtest runs every
+   marked function the filter selects — a positional argument is a SUBSTRING filter unless --exact
+   is given — and `cargo test` exits 0 iff the project builds and every function it ran passed
+   (zero functions run: exit 0).
    [compiles t]: read/lex/parse/typecheck/lowering/emission/project generation succeed and
-   `cargo test` builds the project.  [body_ok t]: executing the body of t runs to completion
-   without a failed assertion or panic.  [runs_body t]: the generated project contains a #[test]
-   item (or a main) that executes the selected function.  With no such item `cargo test` runs
-   zero tests and exits 0 whenever the project builds. *)
-Definition raw_of_harness (runs_body compiles body_ok : test -> bool) (t : test) : raw :=
-  if compiles t && (negb (runs_body t) || body_ok t) then RPass else RFail.
+   `cargo test` builds the project.  [body_ok u]: executing the body of u runs to completion
+   without a failed assertion or panic. *)
+Record harness := { h_marked : list test; h_filter : option (str * bool) }.
 
-(* the generated harness of the current tree (src/backend/ir/emit/decls.rs emit_function, test
-   mode): the selected function gets #[test] iff it has no parameters and is not async *)
+Definition libtest_selects (flt : option (str * bool)) (name : str) : bool :=
+  match flt with
+  | None => true
+  | Some (pat, true) => str_eqb pat name
+  | Some (pat, false) => containsb pat name
+  end.
+
+Definition harness_executes (h : harness) : list test :=
+  List.filter (fun u => libtest_selects (h_filter h) (t_name u)) (h_marked h).
+
+Definition raw_of_harness (gen : test -> harness) (compiles body_ok : test -> bool) (t : test) : raw :=
+  if compiles t && forallb body_ok (harness_executes (gen t)) then RPass else RFail.
+
+(* libtest only accepts synchronous functions without parameters *)
 Definition harness_runs_body (t : test) : bool :=
   match t_params t with [] => negb (t_async t) | _ :: _ => false end.
 
-(* did the body of t execute at all in the generated harness? *)
-Definition body_ran (runs_body compiles : test -> bool) (t : test) : bool := runs_body t && compiles t.
+(* the generated harness of the current tree (src/backend/ir/emit/decls.rs emit_function in test
+   mode + src/cli/test_runner.rs run_single_test): #[test] on the selected function only, and only
+   if libtest accepts it; `cargo test -- --nocapture` without a positional argument *)
+Definition gen_current (t : test) : harness :=
+  {| h_marked := if harness_runs_body t then [t] else []; h_filter := None |}.
+
+(* another design (NOT the current tree; used for the refutation and for the --exact theorem): every
+   libtest-compatible test function of the file is marked and the runner selects by name *)
+Definition gen_all_marked (exact : bool) (file_tests : test -> list test) (t : test) : harness :=
+  {| h_marked := List.filter harness_runs_body (file_tests t); h_filter := Some (t_name t, exact) |}.
+
+(* the harness run for t executes nothing but t *)
+Definition isolated (gen : test -> harness) (t : test) : Prop :=
+  forall u, In u (harness_executes (gen t)) -> u = t.
+
+Definition executes_nothing (gen : test -> harness) (t : test) : bool :=
+  match harness_executes (gen t) with [] => true | _ :: _ => false end.
+
+(* did a function with t's name execute in the harness generated for t? *)
+Definition body_ran (gen : test -> harness) (compiles : test -> bool) (t : test) : bool :=
+  compiles t && existsb (fun u => str_eqb (t_name u) (t_name t)) (harness_executes (gen t)).
 
 (* the truthful raw verdict the property asks for *)
 Definition raw_truth (compiles body_ok : test -> bool) (t : test) : raw :=
   if compiles t && body_ok t then RPass else RFail.
 
-(* class of the known finding test-not-executed: the harness does not execute the body of t (for
-   [harness_runs_body]: t takes parameters — fixtures, @parametrize — or is async) and the test's
-   project builds although its body would fail *)
-Definition Known_C16_body_not_executed (runs_body compiles body_ok : test -> bool) (t : test) : Prop :=
-  runs_body t = false /\ compiles t = true /\ body_ok t = false.
+(* class of the known finding test-with-params-not-executed: the harness generated for t executes
+   nothing (for [gen_current]: t takes parameters — fixtures, @parametrize — or is async) and the
+   test's project builds although its body would fail *)
+Definition Known_C16_body_not_executed (gen : test -> harness) (compiles body_ok : test -> bool) (t : test) : Prop :=
+  harness_executes (gen t) = [] /\ compiles t = true /\ body_ok t = false.
 
-Definition known_body_not_executedb (runs_body compiles body_ok : test -> bool) (t : test) : bool :=
-  negb (runs_body t) && compiles t && negb (body_ok t).
+Definition known_body_not_executedb (gen : test -> harness) (compiles body_ok : test -> bool) (t : test) : bool :=
+  executes_nothing gen t && compiles t && negb (body_ok t).
 
 (* ------------------------------------------------------------------------------------------ *)
 (* rendering for the correspondence run (everything to Z / lists of Z) *)
@@ -369,7 +404,8 @@ Definition render_marker (m : marker) : Z * str :=
 Definition render_state (s : state) :=
   (map (fun tr => (file_name (t_path (fst tr)), t_name (fst tr), render_result (snd tr))) (results s),
    [n_passed s; n_failed s; n_skipped s; n_xfailed s; n_xpassed s],
-   map (fun t => (file_name (t_path t), t_name t, harness_runs_body t)) (executed s),
+   map (fun t => (file_name (t_path t), t_name t, map t_name (h_marked (gen_current t)),
+                  match h_filter (gen_current t) with None => (0, [], false) | Some (p, e) => (1, p, e) end)) (executed s),
    summary_parts s).
 
 (* (kind, exit, collected, state) with kind 0 = NoTestFiles, 1 = NoTestsCollected, 2 = Ran *)
